@@ -1,9 +1,366 @@
-(* Proofs/PLU.v — LU with partial pivoting (R instance). *)
+(* Proofs/PLU.v — LU with partial pivoting (Model/LU.v, R instance). *)
 From Coq Require Import ZArith List Arith Bool Reals Lra Lia.
 From SV Require Import Base.Num Base.Outcome Base.Mat Model.Subst Model.LU Proofs.LU.
 Import ListNotations.
 Local Open Scope R_scope.
 
+(* ---------------------------------------------------------------------------
+   EPSILON
+   --------------------------------------------------------------------------- *)
+Lemma neps_R : @neps R RNum = / 2 ^ 52.
+Proof.
+  unfold neps. change 52%Z with (Z.of_nat 52). rewrite npowi_R_nat.
+  unfold ntwo. cbn [ndiv n1 nofZ RNum]. unfold Rdiv. ring.
+Qed.
+
+Lemma neps_pos : 0 < @neps R RNum.
+Proof. rewrite neps_R. apply Rinv_0_lt_compat. apply pow_lt. lra. Qed.
+
+(* ---------------------------------------------------------------------------
+   The split of the packed factors
+   --------------------------------------------------------------------------- *)
+Lemma plu_lower_lt (m : mat R) r t : (t < r)%nat -> plu_lower m r t = m r t.
+Proof.
+  intro H. unfold plu_lower. destruct (Nat.eqb_spec r t); [lia|].
+  destruct (Nat.ltb_spec t r); [reflexivity|lia].
+Qed.
+Lemma plu_lower_eq (m : mat R) r : plu_lower m r r = 1.
+Proof. unfold plu_lower. rewrite Nat.eqb_refl. reflexivity. Qed.
+Lemma plu_lower_gt (m : mat R) r t : (r < t)%nat -> plu_lower m r t = 0.
+Proof.
+  intro H. unfold plu_lower. destruct (Nat.eqb_spec r t); [lia|].
+  destruct (Nat.ltb_spec t r); [lia|reflexivity].
+Qed.
+Lemma plu_upper_le (m : mat R) t c : (t <= c)%nat -> plu_upper m t c = m t c.
+Proof. intro H. unfold plu_upper. destruct (Nat.leb_spec t c); [reflexivity|lia]. Qed.
+Lemma plu_upper_gt (m : mat R) t c : (c < t)%nat -> plu_upper m t c = 0.
+Proof. intro H. unfold plu_upper. destruct (Nat.leb_spec t c); [lia|reflexivity]. Qed.
+
+(* ---------------------------------------------------------------------------
+   Pivot search: the selected row maximises |m r i| over i <= r < n
+   --------------------------------------------------------------------------- *)
+Lemma pivot_search_spec n i (m : mat R) :
+  (i < n)%nat ->
+  let q := fst (plu_pivot_search n i m) in
+  (i <= q < n)%nat /\ forall r, (i <= r < n)%nat -> Rabs (m r i) <= Rabs (m q i).
+Proof.
+  intro Hi. cbv zeta. unfold plu_pivot_search.
+  match goal with |- context [for_range (S i) (n - S i) ?b ?s] => set (body := b); set (s0 := s) end.
+  pose proof (for_range_inv (fun k (st : nat * R) =>
+      (i <= fst st < k)%nat /\ snd st = Rabs (m (fst st) i) /\
+      forall r, (i <= r < k)%nat -> Rabs (m r i) <= snd st) (S i) (n - S i) body s0) as H.
+  replace (S i + (n - S i))%nat with n in H by lia.
+  destruct H as [H1 [H2 H3]].
+  - unfold s0. cbn [fst snd]. split; [lia|]. split; [reflexivity|].
+    intros r Hr. assert (r = i) by lia. subst r. cbn [nabs RNum]. lra.
+  - intros k st Hk [A1 [A2 A3]]. unfold body.
+    cbn [nabs RNum]. unfold ngtb. cbn [nltb RNum].
+    destruct (Rltb (snd st) (Rabs (m k i))) eqn:E.
+    + apply Rltb_true in E. cbn [fst snd]. split; [lia|]. split; [reflexivity|].
+      intros r Hr. destruct (Nat.eq_dec r k) as [->|Hne]; [lra|].
+      specialize (A3 r). assert (Hr' : (i <= r < k)%nat) by lia. specialize (A3 Hr'). lra.
+    + apply Rltb_false in E. split; [lia|]. split; [exact A2|].
+      intros r Hr. destruct (Nat.eq_dec r k) as [->|Hne]; [exact E|].
+      apply A3. lia.
+  - split; [exact H1|]. intros r Hr. rewrite <- H2. apply H3. exact Hr.
+Qed.
+
+(* ---------------------------------------------------------------------------
+   Elimination: closed forms of the two nested loops
+   --------------------------------------------------------------------------- *)
+Definition row_update_len (i k len : nat) (m : mat R) : mat R :=
+  for_range (S i) len (fun j m => mset m k j (nsub (m k j) (nmul (m k i) (m i j)))) m.
+
+Lemma plu_row_update_len n i k m : plu_row_update n i k m = row_update_len i k (n - S i) m.
+Proof. reflexivity. Qed.
+
+Lemma row_update_len_spec i k len (m : mat R) :
+  k <> i ->
+  (forall c, (S i <= c < S i + len)%nat -> row_update_len i k len m k c = m k c - m k i * m i c) /\
+  (forall r c, ~ (r = k /\ (S i <= c < S i + len)%nat) -> row_update_len i k len m r c = m r c).
+Proof.
+  intro Hki. induction len as [|len [IH1 IH2]].
+  - split; [intros c Hc; lia|intros; reflexivity].
+  - unfold row_update_len in *. rewrite for_range_S.
+    set (M := for_range (S i) len _ m) in *.
+    cbn [nsub nmul RNum].
+    split.
+    + intros c Hc. destruct (Nat.eq_dec c (S i + len)) as [->|Hne].
+      * rewrite mset_same. rewrite !IH2 by lia. reflexivity.
+      * rewrite mset_other by (right; exact Hne). apply IH1. lia.
+    + intros r c Hn. rewrite mset_other.
+      * apply IH2. intros [H1 H2]. apply Hn. split; [exact H1|lia].
+      * destruct (Nat.eq_dec r k) as [->|Hr]; [right|left; exact Hr].
+        intro Hc. apply Hn. split; [reflexivity|lia].
+Qed.
+
+Definition eliminate_len (n i len : nat) (m : mat R) : mat R :=
+  for_range (S i) len (fun k m => plu_row_update n i k (mset m k i (ndiv (m k i) (m i i)))) m.
+
+Lemma plu_eliminate_len n i m : plu_eliminate n i m = eliminate_len n i (n - S i) m.
+Proof. reflexivity. Qed.
+
+Lemma eliminate_len_spec n i len (m : mat R) :
+  (i < n)%nat ->
+  (forall r, (S i <= r < S i + len)%nat -> eliminate_len n i len m r i = m r i / m i i) /\
+  (forall r c, (S i <= r < S i + len)%nat -> (S i <= c < n)%nat ->
+      eliminate_len n i len m r c = m r c - (m r i / m i i) * m i c) /\
+  (forall r c, ~ ((S i <= r < S i + len)%nat /\ (i <= c < n)%nat) -> eliminate_len n i len m r c = m r c).
+Proof.
+  intro Hi. induction len as [|len [IH1 [IH2 IH3]]].
+  - split; [intros r Hr; lia|]. split; [intros r c Hr; lia|intros; reflexivity].
+  - unfold eliminate_len in *. rewrite for_range_S.
+    set (M := for_range (S i) len _ m) in *.
+    rewrite plu_row_update_len.
+    set (k := (S i + len)%nat).
+    set (M1 := mset M k i (ndiv (M k i) (M i i))).
+    destruct (row_update_len_spec i k (n - S i) M1) as [R1 R2]; [unfold k; lia|].
+    replace (S i + (n - S i))%nat with n in R1, R2 by lia.
+    assert (EMk : forall c, M k c = m k c) by (intro c; apply IH3; unfold k; lia).
+    assert (EMi : forall c, M i c = m i c) by (intro c; apply IH3; lia).
+    assert (E1k : M1 k i = m k i / m i i).
+    { unfold M1. rewrite mset_same. cbn [ndiv RNum]. rewrite EMk, EMi. reflexivity. }
+    split; [|split].
+    + intros r Hr. rewrite R2 by lia.
+      destruct (Nat.eq_dec r k) as [->|Hne]; [exact E1k|].
+      unfold M1. rewrite mset_other by (left; exact Hne). apply IH1. unfold k in Hne. lia.
+    + intros r c Hr Hc. destruct (Nat.eq_dec r k) as [->|Hne].
+      * rewrite R1 by lia. rewrite E1k. unfold M1.
+        rewrite !mset_other by (right; lia). rewrite EMk, EMi. reflexivity.
+      * rewrite R2 by (intros [H1 H2]; exact (Hne H1)).
+        unfold M1. rewrite mset_other by (left; exact Hne). apply IH2; [unfold k in Hne; lia|exact Hc].
+    + intros r c Hn.
+      assert (Hrc : ~ (r = k /\ (S i <= c < n)%nat)).
+      { intros [H1 H2]. apply Hn. unfold k in H1. lia. }
+      rewrite R2 by exact Hrc.
+      unfold M1. rewrite mset_other.
+      * apply IH3. intros [H1 H2]. apply Hn. lia.
+      * destruct (Nat.eq_dec r k) as [->|Hr]; [right|left; exact Hr].
+        intro Hc. apply Hn. unfold k. lia.
+Qed.
+
+(* ---------------------------------------------------------------------------
+   The loop invariant of right-looking LU with row interchanges:
+   after i steps   A (s r) c = sum_{t<i} L r t * U t c + [r >= i /\ c >= i] m r c
+   where L, U are the split of the packed matrix m and the lower-right block of m
+   is the Schur complement still to be factored.
+   --------------------------------------------------------------------------- *)
+Definition rest (i : nat) (m : mat R) (r c : nat) : R :=
+  if (i <=? r)%nat && (i <=? c)%nat then m r c else 0.
+
+Lemma rest_in i (m : mat R) r c : (i <= r)%nat -> (i <= c)%nat -> rest i m r c = m r c.
+Proof.
+  intros H1 H2. unfold rest. destruct (Nat.leb_spec i r); [|lia]. destruct (Nat.leb_spec i c); [|lia]. reflexivity.
+Qed.
+Lemma rest_out i (m : mat R) r c : ((r < i)%nat \/ (c < i)%nat) -> rest i m r c = 0.
+Proof.
+  intros H. unfold rest. destruct (Nat.leb_spec i r); destruct (Nat.leb_spec i c); try reflexivity. lia.
+Qed.
+
+(* the transposition of i and q *)
+Definition tau (i q r : nat) : nat := if (r =? q)%nat then i else if (r =? i)%nat then q else r.
+
+Lemma tau_lt n i q r : (i < n)%nat -> (q < n)%nat -> (r < n)%nat -> (tau i q r < n)%nat.
+Proof. intros. unfold tau. destruct (Nat.eqb_spec r q); [lia|]. destruct (Nat.eqb_spec r i); lia. Qed.
+Lemma tau_invol i q r : tau i q (tau i q r) = r.
+Proof.
+  unfold tau. destruct (Nat.eqb_spec r q) as [->|H1].
+  - destruct (Nat.eqb_spec i q) as [->|H2]; [reflexivity|]. rewrite Nat.eqb_refl. reflexivity.
+  - destruct (Nat.eqb_spec r i) as [->|H2].
+    + rewrite Nat.eqb_refl. reflexivity.
+    + destruct (Nat.eqb_spec r q); [lia|]. destruct (Nat.eqb_spec r i); [lia|]. reflexivity.
+Qed.
+Lemma tau_low i q r : (i <= q)%nat -> (r < i)%nat -> tau i q r = r.
+Proof. intros. unfold tau. destruct (Nat.eqb_spec r q); [lia|]. destruct (Nat.eqb_spec r i); [lia|]. reflexivity. Qed.
+Lemma tau_high i q r : (i <= q)%nat -> (i <= r)%nat -> (i <= tau i q r)%nat.
+Proof. intros. unfold tau. destruct (Nat.eqb_spec r q); [lia|]. destruct (Nat.eqb_spec r i); lia. Qed.
+Lemma tau_i i q : tau i q i = q.
+Proof. unfold tau. destruct (Nat.eqb_spec i q); [lia|]. rewrite Nat.eqb_refl. reflexivity. Qed.
+
+(* what the conditional swap of the model does, pointwise *)
+Lemma swap_tau (m : mat R) i q r c :
+  (if (q =? i)%nat then m else mswap_rows m q i) r c = m (tau i q r) c.
+Proof.
+  unfold tau, mswap_rows. destruct (Nat.eqb_spec q i) as [->|Hqi].
+  - destruct (Nat.eqb_spec r i) as [->|H]; reflexivity.
+  - destruct (Nat.eqb_spec r q); [reflexivity|]. destruct (Nat.eqb_spec r i); reflexivity.
+Qed.
+
+Definition PCore (n : nat) (A : mat R) (i : nat) (m : mat R) (s : nat -> nat) : Prop :=
+  forall r c, (r < n)%nat -> (c < n)%nat ->
+    A (s r) c = msum 0 i (fun t => plu_lower m r t * plu_upper m t c) + rest i m r c.
+
+Definition PInv (n : nat) (A : mat R) (i : nat) (m p : mat R) : Prop :=
+  (exists s s', (forall r, (r < n)%nat -> (s r < n)%nat /\ (s' r < n)%nat /\ s' (s r) = r /\ s (s' r) = r) /\
+                perm_mat n s p /\ PCore n A i m s) /\
+  (forall r c, (r < n)%nat -> (c < i)%nat -> (c < r)%nat -> Rabs (m r c) <= 1) /\
+  (forall t, (t < i)%nat -> (t < n)%nat -> neps <= Rabs (m t t)).
+
+Lemma PInv_init n (A : mat R) : PInv n A 0 A midentity.
+Proof.
+  split; [|split].
+  - exists (fun r => r), (fun r => r). split; [intros r Hr; repeat split; exact Hr|]. split.
+    + intros r c Hr Hc. unfold midentity. cbn [n0 n1 RNum].
+      destruct (Nat.eqb_spec r c); destruct (Nat.eqb_spec c r); try lia; reflexivity.
+    + intros r c Hr Hc. cbn [msum]. rewrite rest_in by lia. ring.
+  - intros r c Hr Hc. lia.
+  - intros t Ht. lia.
+Qed.
+
+(* row interchange *)
+Lemma PCore_swap n A i m s q m1 :
+  (i <= q < n)%nat -> (forall r c, m1 r c = m (tau i q r) c) ->
+  PCore n A i m s -> PCore n A i m1 (fun r => s (tau i q r)).
+Proof.
+  intros Hq Hm1 Hc r c Hr Hcn.
+  rewrite (Hc (tau i q r) c) by (try apply tau_lt; lia).
+  f_equal.
+  - apply msum_ext. intros t Ht. f_equal.
+    + unfold plu_lower. rewrite Hm1. unfold tau.
+      destruct (Nat.eqb_spec r q); destruct (Nat.eqb_spec r i);
+        repeat match goal with |- context [(?a =? ?b)%nat] => destruct (Nat.eqb_spec a b) end;
+        repeat match goal with |- context [(?a <? ?b)%nat] => destruct (Nat.ltb_spec a b) end;
+        try lia; reflexivity.
+    + unfold plu_upper. rewrite Hm1. rewrite (tau_low i q t) by lia. reflexivity.
+  - unfold rest. rewrite Hm1.
+    assert (E : (i <=? tau i q r)%nat = (i <=? r)%nat).
+    { destruct (Nat.leb_spec i r) as [H|H].
+      - apply Nat.leb_le. apply tau_high; lia.
+      - rewrite tau_low by lia. apply Nat.leb_gt. exact H. }
+    rewrite E. reflexivity.
+Qed.
+
+(* one elimination step *)
+Lemma PCore_elim n A i m1 m2 s :
+  (i < n)%nat -> m1 i i <> 0 ->
+  (forall r, (S i <= r < n)%nat -> m2 r i = m1 r i / m1 i i) ->
+  (forall r c, (S i <= r < n)%nat -> (S i <= c < n)%nat -> m2 r c = m1 r c - (m1 r i / m1 i i) * m1 i c) ->
+  (forall r c, (r < n)%nat -> (c < n)%nat -> ~ ((S i <= r)%nat /\ (i <= c)%nat) -> m2 r c = m1 r c) ->
+  PCore n A i m1 s -> PCore n A (S i) m2 s.
+Proof.
+  intros Hi Hp E1 E2 E3 Hc r c Hr Hcn.
+  rewrite (Hc r c Hr Hcn). cbn [msum]. rewrite Nat.add_0_l.
+  rewrite (msum_ext 0 i (fun t => plu_lower m2 r t * plu_upper m2 t c)
+                        (fun t => plu_lower m1 r t * plu_upper m1 t c)).
+  2:{ intros t Ht. f_equal.
+      - unfold plu_lower. rewrite E3 by lia. reflexivity.
+      - unfold plu_upper. rewrite E3 by lia. reflexivity. }
+  rewrite Rplus_assoc. f_equal.
+  assert (EU : plu_upper m2 i c = plu_upper m1 i c) by (unfold plu_upper; rewrite E3 by lia; reflexivity).
+  rewrite EU.
+  destruct (lt_eq_lt_dec r i) as [[Hri|Hri]|Hri].
+  - rewrite plu_lower_gt by lia. rewrite !rest_out by lia. ring.
+  - subst r. rewrite plu_lower_eq. rewrite (rest_out (S i)) by lia.
+    destruct (le_lt_dec i c) as [Hic|Hic].
+    + rewrite plu_upper_le, rest_in by lia. ring.
+    + rewrite plu_upper_gt, rest_out by lia. ring.
+  - rewrite plu_lower_lt by lia. rewrite E1 by lia.
+    destruct (lt_eq_lt_dec c i) as [[Hci|Hci]|Hci].
+    + rewrite plu_upper_gt by lia. rewrite !rest_out by lia. ring.
+    + subst c. rewrite plu_upper_le by lia. rewrite (rest_out (S i)) by lia.
+      rewrite rest_in by lia. field. exact Hp.
+    + rewrite plu_upper_le by lia. rewrite !rest_in by lia. rewrite E2 by lia. ring.
+Qed.
+
+Lemma Rabs_div_le_1 x y : y <> 0 -> Rabs x <= Rabs y -> Rabs (x / y) <= 1.
+Proof.
+  intros Hy H. unfold Rdiv. rewrite Rabs_mult, Rabs_inv.
+  assert (0 < Rabs y) by (apply Rabs_pos_lt; exact Hy).
+  apply Rmult_le_reg_r with (Rabs y); [assumption|].
+  rewrite Rmult_assoc, Rinv_l by lra. lra.
+Qed.
+
+Definition plu_post (n : nat) (A : mat R) (i : nat) (acc : res (mat R * mat R)) : Prop :=
+  match acc with
+  | Ok (m, p) => PInv n A i m p
+  | Err e => e = ESingularMatrix
+  | Panic _ => False
+  end.
+
+Lemma plu_step_post n A i acc :
+  (i < n)%nat -> plu_post n A i acc -> plu_post n A (S i) (plu_step n i acc).
+Proof.
+  intros Hi H. destruct acc as [[m p]|e|w]; cbn [plu_step plu_post] in *; [|exact H|exact H].
+  destruct (pivot_search_spec n i m Hi) as [Hq Hmax]. cbv zeta in Hq, Hmax.
+  set (q := fst (plu_pivot_search n i m)) in *.
+  set (m1 := if (q =? i)%nat then m else mswap_rows m q i).
+  set (p1 := if (q =? i)%nat then p else mswap_rows p q i).
+  assert (Em1 : forall r c, m1 r c = m (tau i q r) c) by (intros; unfold m1; apply swap_tau).
+  assert (Ep1 : forall r c, p1 r c = p (tau i q r) c) by (intros; unfold p1; apply swap_tau).
+  cbn [nltb nabs RNum].
+  destruct (Rltb (Rabs (m1 i i)) neps) eqn:Echk; [reflexivity|].
+  apply Rltb_false in Echk. cbn [plu_post].
+  assert (Hp : m1 i i <> 0).
+  { intro E. rewrite E, Rabs_R0 in Echk. pose proof neps_pos. lra. }
+  destruct H as [[s [s' [Hs [Hpm Hcore]]]] [Hmult Hpiv]].
+  rewrite plu_eliminate_len.
+  destruct (eliminate_len_spec n i (n - S i) m1 Hi) as [E1 [E2 E3]].
+  replace (S i + (n - S i))%nat with n in E1, E2, E3 by lia.
+  set (m2 := eliminate_len n i (n - S i) m1) in *.
+  assert (F1 : forall r, (S i <= r < n)%nat -> retab n n m2 r i = m1 r i / m1 i i).
+  { intros r Hr. rewrite retab_spec by lia. apply E1; exact Hr. }
+  assert (F2 : forall r c, (S i <= r < n)%nat -> (S i <= c < n)%nat ->
+                 retab n n m2 r c = m1 r c - (m1 r i / m1 i i) * m1 i c).
+  { intros r c Hr Hc. rewrite retab_spec by lia. apply E2; assumption. }
+  assert (F3 : forall r c, (r < n)%nat -> (c < n)%nat -> ~ ((S i <= r)%nat /\ (i <= c)%nat) ->
+                 retab n n m2 r c = m1 r c).
+  { intros r c Hr Hc Hn. rewrite retab_spec by lia. apply E3. intros [H1 H2]. apply Hn. lia. }
+  split; [|split].
+  - exists (fun r => s (tau i q r)), (fun r => tau i q (s' r)). split; [|split].
+    + intros r Hr.
+      assert (Ht : (tau i q r < n)%nat) by (apply tau_lt; lia).
+      destruct (Hs (tau i q r) Ht) as [A1 [A2 [A3 A4]]].
+      destruct (Hs r Hr) as [B1 [B2 [B3 B4]]].
+      split; [exact A1|]. split; [apply tau_lt; lia|]. split.
+      * rewrite A3. apply tau_invol.
+      * rewrite tau_invol. exact B4.
+    + intros r c Hr Hc. rewrite retab_spec by assumption. rewrite Ep1.
+      apply Hpm; [apply tau_lt; lia|exact Hc].
+    + apply (PCore_elim n A i m1 (retab n n m2)); try assumption.
+      apply (PCore_swap n A i m s q m1); [lia|exact Em1|exact Hcore].
+  - intros r c Hr Hc Hcr.
+    destruct (Nat.eq_dec c i) as [->|Hne].
+    + rewrite F1 by lia. apply Rabs_div_le_1; [exact Hp|].
+      rewrite !Em1, tau_i. apply Hmax. split; [apply tau_high; lia|apply tau_lt; lia].
+    + rewrite F3 by lia. rewrite Em1. apply Hmult; [apply tau_lt; lia|lia|].
+      destruct (le_lt_dec i r) as [H|H]; [pose proof (tau_high i q r); lia|rewrite tau_low by lia; lia].
+  - intros t Ht Htn. rewrite F3 by lia.
+    destruct (Nat.eq_dec t i) as [->|Hne]; [exact Echk|].
+    rewrite Em1, tau_low by lia. apply Hpiv; lia.
+Qed.
+
+Lemma plu_loop_post n (A : mat R) : plu_post n A n (for_range 0 n (plu_step n) (Ok (A, midentity))).
+Proof.
+  pose proof (for_range_inv (plu_post n A) 0 n (plu_step n) (Ok (A, midentity))) as H.
+  cbn [Nat.add] in H. apply H.
+  - cbn [plu_post]. apply PInv_init.
+  - intros i acc Hi. apply plu_step_post. lia.
+Qed.
+
+(* what a successful run returns *)
+Lemma plu_ok_inv n (A L U P : mat R) :
+  plu n n A = Ok (L, U, P) ->
+  exists m, PInv n A n m P /\ meq n L (plu_lower m) /\ meq n U (plu_upper m).
+Proof.
+  unfold plu. rewrite Nat.eqb_refl. cbn [negb].
+  pose proof (plu_loop_post n A) as Hpost.
+  destruct (for_range 0 n (plu_step n) (Ok (A, midentity))) as [[m p]|e|w]; [|discriminate|discriminate].
+  intro H. injection H as <- <- <-. exists m. split; [exact Hpost|].
+  split; apply meq_retab.
+Qed.
+
+Lemma plu_outcome n (A : mat R) :
+  plu n n A = Err ESingularMatrix \/ exists L U P, plu n n A = Ok (L, U, P).
+Proof.
+  unfold plu. rewrite Nat.eqb_refl. cbn [negb].
+  pose proof (plu_loop_post n A) as Hpost.
+  destruct (for_range 0 n (plu_step n) (Ok (A, midentity))) as [[m p]|e|w]; cbn [plu_post] in Hpost.
+  - right. eexists _, _, _. reflexivity.
+  - left. subst e. reflexivity.
+  - contradiction.
+Qed.
+
+(* ---- the C09 statements about plu ------------------------------------------- *)
 Lemma c09_nonsquare_plu : forall (h w : nat) (A : mat R), h <> w -> plu h w A = Err ENonSquareMatrix.
 Proof.
   intros h w A H. unfold plu. apply Nat.eqb_neq in H. rewrite H. reflexivity.
@@ -12,3 +369,92 @@ Qed.
 Lemma c09_nonsquare : forall (h w : nat) (A : mat R), h <> w ->
   lu h w A = Err ENonSquareMatrix /\ plu h w A = Err ENonSquareMatrix.
 Proof. intros h w A H. split; [apply c09_nonsquare_lu|apply c09_nonsquare_plu]; exact H. Qed.
+
+Lemma c09_plu_shape : forall (n : nat) (A L U P : mat R), plu n n A = Ok (L, U, P) ->
+  unit_lower n L /\ upper_tri n U /\ is_perm_mat n P /\
+  (forall i j, (i < n)%nat -> (j < n)%nat -> Rabs (L i j) <= 1).
+Proof.
+  intros n A L U P H.
+  destruct (plu_ok_inv n A L U P H) as [m [[[s [s' [Hs [Hpm _]]]] [Hmult _]] [EL EU]]].
+  split; [|split; [|split]].
+  - intros i j Hi Hj. rewrite EL by assumption. split.
+    + intros <-. apply plu_lower_eq.
+    + intro Hij. apply plu_lower_gt. exact Hij.
+  - intros i j Hi Hj Hji. rewrite EU by assumption. apply plu_upper_gt. exact Hji.
+  - exists s. split; [exists s'; exact Hs|exact Hpm].
+  - intros i j Hi Hj. rewrite EL by assumption.
+    destruct (lt_eq_lt_dec i j) as [[Hij|Hij]|Hij].
+    + rewrite plu_lower_gt by exact Hij. rewrite Rabs_R0. lra.
+    + subst j. rewrite plu_lower_eq, Rabs_R1. lra.
+    + rewrite plu_lower_lt by exact Hij. apply Hmult; lia.
+Qed.
+
+(* the pivots of a returned U are at least EPSILON in absolute value *)
+Lemma c09_plu_pivots : forall (n : nat) (A L U P : mat R), plu n n A = Ok (L, U, P) ->
+  forall i, (i < n)%nat -> neps <= Rabs (U i i) /\ U i i <> 0.
+Proof.
+  intros n A L U P H i Hi.
+  destruct (plu_ok_inv n A L U P H) as [m [[_ [_ Hpiv]] [_ EU]]].
+  rewrite EU by assumption. rewrite plu_upper_le by lia.
+  pose proof (Hpiv i Hi Hi) as Hp. split; [exact Hp|].
+  intro E. rewrite E, Rabs_R0 in Hp. pose proof neps_pos. lra.
+Qed.
+
+Lemma perm_mat_row n s (P A : mat R) i j :
+  (i < n)%nat -> (j < n)%nat -> (s i < n)%nat -> perm_mat n s P -> mprod n P A i j = A (s i) j.
+Proof.
+  intros Hi Hj Hsi Hpm. unfold mprod.
+  rewrite (msum_delta 0 n _ (s i)); [|lia|].
+  - rewrite Hpm by assumption. rewrite Nat.eqb_refl. ring.
+  - intros t Ht Hne. rewrite Hpm by lia. apply Nat.eqb_neq in Hne. rewrite Hne. ring.
+Qed.
+
+(* L U = P A, and P A is A with its rows permuted by s *)
+Lemma plu_reconstruct_perm n (A L U P : mat R) :
+  plu n n A = Ok (L, U, P) ->
+  exists s, perm_on n s /\ perm_mat n s P /\
+    forall i j, (i < n)%nat -> (j < n)%nat -> mprod n L U i j = A (s i) j.
+Proof.
+  intro H.
+  destruct (plu_ok_inv n A L U P H) as [m [[[s [s' [Hs [Hpm Hcore]]]] _] [EL EU]]].
+  exists s. split; [exists s'; exact Hs|]. split; [exact Hpm|].
+  intros i j Hi Hj. rewrite (Hcore i j Hi Hj). rewrite rest_out by lia. rewrite Rplus_0_r.
+  unfold mprod. apply msum_ext. intros t Ht. rewrite EL, EU by lia. reflexivity.
+Qed.
+
+Lemma c09_plu_reconstruct : forall (n : nat) (A L U P : mat R), plu n n A = Ok (L, U, P) ->
+  forall i j, (i < n)%nat -> (j < n)%nat -> mprod n L U i j = mprod n P A i j.
+Proof.
+  intros n A L U P H i j Hi Hj.
+  destruct (plu_reconstruct_perm n A L U P H) as [s [[s' Hs] [Hpm Hrec]]].
+  rewrite (Hrec i j Hi Hj). symmetry. apply (perm_mat_row n s); try assumption.
+  apply (Hs i Hi).
+Qed.
+
+(* A x = b is solvable for every b once plu succeeds *)
+Lemma plu_solvable n (A L U P : mat R) :
+  plu n n A = Ok (L, U, P) ->
+  forall b : vec R, exists x : vec R, forall r, (r < n)%nat -> msum 0 n (fun c => A r c * x c) = b r.
+Proof.
+  intros H b.
+  destruct (c09_plu_shape n A L U P H) as [HL [HU _]].
+  destruct (plu_reconstruct_perm n A L U P H) as [s [[s' Hs] [_ Hrec]]].
+  assert (Hd : forall i, (i < n)%nat -> U i i <> 0) by (intros i Hi; apply (c09_plu_pivots n A L U P H i Hi)).
+  destruct (tri_solvable n L U HL HU Hd (fun r => b (s r))) as [x Hx].
+  exists x. intros r Hr.
+  destruct (Hs r Hr) as [_ [Hs'r [_ Hss']]].
+  specialize (Hx (s' r) Hs'r). rewrite Hss' in Hx. rewrite <- Hx.
+  apply msum_ext. intros c Hc.
+  change (msum 0 n (fun t => L (s' r) t * U t c)) with (mprod n L U (s' r) c).
+  rewrite Hrec by lia. rewrite Hss'. reflexivity.
+Qed.
+
+(* a singular matrix (non-trivial left null vector) is refused *)
+Lemma c09_plu_singular : forall (n : nat) (A : mat R) (w : nat -> R),
+  left_null n A w -> plu n n A = Err ESingularMatrix.
+Proof.
+  intros n A w [[i0 [Hi0 Hw0]] Hnull].
+  destruct (plu_outcome n A) as [E|[L [U [P E]]]]; [exact E|exfalso].
+  apply Hw0. apply (no_left_null n A); [|exact Hnull|exact Hi0].
+  apply (plu_solvable n A L U P E).
+Qed.
